@@ -72,7 +72,7 @@ func RunSoloScript(r sim.Src, mons []*sim.Mon, keepLog bool, sh SoloShape) *Solo
 	cfg := sim.Cfg{IDs: n, Validators: func(uint32) []int { return base }, ValDesc: fmt.Sprintf("const[0..%d]", n-1), StartTip: startTip,
 		AMEVHeight: amev, TimePerBlock: tpb, TsIncrement: inc, Epoch: epoch.Add(shift)}
 	if r.Intn("dyn", 4) == 0 {
-		cfg.MaxTimePerBlock = tpb * time.Duration(2+r.Intn("dynratio", 3))
+		cfg.MaxTimePerBlock = tpb * time.Duration([]int{2, 3, 4, 6, 8}[r.Intn("dynratio", 5)]) / 2 // ratio 1, 1.5, 2, 3 or 4
 	}
 	out := &SoloOut{Classes: map[string]int{}, Shift: shift}
 	tm := &sim.Mon{Name: "timerlog",
@@ -91,6 +91,10 @@ func RunSoloScript(r sim.Src, mons []*sim.Mon, keepLog bool, sh SoloShape) *Solo
 	s := sim.NewSolo(cfg, r, self, false, append([]*sim.Mon{tm}, mons...), keepLog)
 	out.S = s
 	nd := s.N
+	if sh.ClockSteps && r.Intn("readskew", 3) == 0 {
+		nd.ReadSkew = true // the clock may also move between two reads inside one call
+		out.Classes["clock_moves_inside_calls"]++
+	}
 	inShift := shift // how far the scripted inputs move with the clock
 	if sh.ClockOnly {
 		inShift = 0
